@@ -566,12 +566,41 @@ func (ex *Exec) conv(dst, src types.Type, x Value) Value {
 		}
 		if sl, ok := du.(*types.Slice); ok && isString(su) {
 			// []rune(string) for concrete strings only
-			_ = sl
+			if b, ok := sl.Elem().Underlying().(*types.Basic); ok && b.Kind() == types.Int32 {
+				if n, ok := v.Len.ConstS(); ok && n <= 4096 {
+					raw := make([]byte, 0, n)
+					for i := int64(0); i < n; i++ {
+						k, ok := ex.viewRead(v, ex.intConst(i)).ConstU()
+						if !ok {
+							panic(unsupported{"[]rune(symbolic string)"})
+						}
+						raw = append(raw, byte(k))
+					}
+					var out []Value
+					for _, r := range string(raw) {
+						out = append(out, c.ConstS(32, int64(r)))
+					}
+					return SliceV{A: out}
+				}
+			}
 			panic(unsupported{"[]rune(string)"})
 		}
 	case SliceV:
 		if isString(du) {
-			panic(unsupported{"string([]rune)"})
+			// string([]rune) for concrete runes only
+			rs := make([]rune, 0, len(v.A))
+			for _, e := range v.A {
+				t, ok := e.(*T)
+				if !ok {
+					panic(unsupported{"string([]rune)"})
+				}
+				k, ok := t.ConstS()
+				if !ok {
+					panic(unsupported{"string([]symbolic rune)"})
+				}
+				rs = append(rs, rune(k))
+			}
+			return ex.constString(string(rs))
 		}
 		return v
 	}
